@@ -205,6 +205,22 @@ def part_factor(sizes, r, case):
                             if float(got) != float(t[idx]):
                                 msgs.append('apply%r=%r != %r' % (tuple(vals), float(got), float(t[idx])))
                                 break
+                        # re-assigning the weights (after apply has been used) takes effect; a wrong shape is rejected
+                        # and leaves the old weights in place
+                        if form == 'tensor' and t.numel():
+                            t2 = t + 100.
+                            f.weights = t2
+                            for idx in itertools.product(*[range(s) for s in sizes]):
+                                vals = [d.denumberize(i) for d, i in zip(doms, idx)]
+                                if float(f.apply(vals)) != float(t2[idx]):
+                                    msgs.append('after f.weights = new: apply%r=%r != %r' % (tuple(vals), float(f.apply(vals)), float(t2[idx])))
+                                    break
+                            try:
+                                f.weights = torch.zeros(tuple(s + 1 for s in sizes) if sizes else (2,))
+                                msgs.append('weights setter accepted a wrong shape')
+                            except ValueError:
+                                if not torch.equal(f.weights.to_dense(), t2):
+                                    msgs.append('rejected weights assignment changed the weights')
                     except Exception as e:
                         r.exc(e, 'factor-apply', case, key)
                         continue
